@@ -77,7 +77,7 @@ impl Check for C16 {
         let mut lib = libgen::gen_lib(&mut rng, &o).texts;
         // plus an outline library (heading trees, acyclic reference graph with diamonds and shared sub-notes),
         // so that the path listing and the search index are rich; keys are disjoint (prefix o/)
-        let (outline, _) = crate::checks::libq::gen_outline_lib(&mut rng, 40, false);
+        let (outline, _) = crate::checks::libq::gen_outline_lib(&mut rng, 14, false);
         for (k, t) in outline {
             // relative links keep their meaning when the whole sub-library moves under o/
             lib.insert(format!("o/{}", k), t);
